@@ -350,6 +350,10 @@ func runC17(c C17Case, ev *Evid) (fs []Finding) {
 			b, err := io.ReadAll(resp.Body)
 			return fmt.Sprintf("%d %s %s|", resp.StatusCode, resp.Header.Get("X-Op"), resp.Header.Get("Content-Type")) + string(b), err
 		}
+		if serverWedged != "" {
+			add("http-error", "(not run) the server stopped answering earlier in this process: %s was not answered within 45 s", serverWedged)
+			return
+		}
 		get := func(req string) (string, error) {
 			resp, err := httpClient60.Get(base + req)
 			if err != nil {
@@ -385,6 +389,7 @@ func runC17(c C17Case, ev *Evid) (fs []Finding) {
 				if err != nil {
 					continue
 				}
+				conn.SetDeadline(time.Now().Add(10 * time.Second)) // (a server that has stopped answering is found by the requests below)
 				fmt.Fprintf(conn, "GET /view-raw?file=%s&retention=-1 HTTP/1.1\r\nHost: x\r\n\r\n", url.QueryEscape(sub+"/"+bigRel))
 				buf := make([]byte, 100)
 				io.ReadFull(conn, buf)
@@ -420,6 +425,9 @@ func runC17(c C17Case, ev *Evid) (fs []Finding) {
 			for i := range reqs {
 				if errs[i] != nil {
 					add("http-error", "GET %s (one of %d concurrent requests) failed or was not answered within 45 s: %v", reqs[i], len(reqs), errs[i])
+					if ne, ok := errs[i].(interface{ Timeout() bool }); ok && ne.Timeout() {
+						serverWedged = fmt.Sprintf("GET %s", reqs[i])
+					}
 					return
 				}
 				seq, err := get(reqs[i])
